@@ -349,12 +349,14 @@ impl MethodDescriptorSlice {
 			bail!("method descriptor {self:?} doesn't start with '('");
 		}
 
-		let mut size = 1; // implicit `this` argument
+		let too_many = || anyhow!("method descriptor {self:?} takes more than 255 argument slots");
+
+		let mut size: u8 = 1; // implicit `this` argument
 		loop {
 			if chars.next_if_eq(&')').is_some() {
 				break;
 			} else if chars.next_if(|&x| x == 'D' || x == 'J').is_some() {
-				size += 2;
+				size = size.checked_add(2).ok_or_else(too_many)?;
 			} else {
 				while chars.next_if_eq(&'[').is_some() { };
 
@@ -367,7 +369,7 @@ impl MethodDescriptorSlice {
 					}
 				}
 
-				size += 1;
+				size = size.checked_add(1).ok_or_else(too_many)?;
 			}
 		}
 
